@@ -303,6 +303,16 @@ def Decision.allowed : Decision → Bool
   | .allow => true
   | _ => false
 
+/-- the three allow-list tests of `evaluate_acl_metadata` (`principal_allowed || role_allowed ||
+    group_allowed`) -/
+def accessGranted (parsed : ParsedAcl) (ctx : NCtx) : Bool :=
+  let principalAllowed := match ctx.subject with
+    | some s => parsed.principals.contains s
+    | none => false
+  let roleAllowed := ctx.roles.any (fun r => parsed.roles.contains r)
+  let groupAllowed := ctx.groups.any (fun g => parsed.groups.contains g)
+  principalAllowed || roleAllowed || groupAllowed
+
 /-- `evaluate_acl_metadata` -/
 def evaluate (m : Meta) (ctx : Option NCtx) : Decision :=
   match ctx with
@@ -313,13 +323,7 @@ def evaluate (m : Meta) (ctx : Option NCtx) : Decision :=
     | some parsed =>
       if parsed.tenant ≠ ctx.tenant then .denyCrossTenant
       else if parsed.visibility = .pub then .allow
-      else
-        let principalAllowed := match ctx.subject with
-          | some s => parsed.principals.contains s
-          | none => false
-        let roleAllowed := ctx.roles.any (fun r => parsed.roles.contains r)
-        let groupAllowed := ctx.groups.any (fun g => parsed.groups.contains g)
-        if principalAllowed || roleAllowed || groupAllowed then .allow else .denyRestricted
+      else if accessGranted parsed ctx then .allow else .denyRestricted
 
 inductive Mode | audit | enforce
 deriving DecidableEq, Repr
@@ -394,29 +398,50 @@ structure Response (κ : Type) where
   context : κ
 deriving Repr
 
-/-- what `Memvid::search` has when it reaches (or fails to reach) the ACL step -/
+/-- `Memvid::validate_acl_request`: the up-front check of `search` and
+    `vec_search_with_embedding_acl` (right after the lex/vec-enabled test, before any early return) -/
+def validateRequest (mode : Mode) (ctx : Option Ctx) : Except Err Unit :=
+  match mode with
+  | .audit => .ok ()
+  | .enforce => match validateEnforce ctx with
+    | .ok _ => .ok ()
+    | .error e => .error e
+
+/-- what `Memvid::search` does around the ACL step -/
 inductive PreSearch (κ : Type)
-  | failed                                   -- an error before the ACL step (lex disabled, bad query …)
-  | early (r : Response κ)                   -- `empty_search_response` returned before the ACL step
+  | disabled                                 -- `LexNotEnabled`, raised before the request is looked at
+  | failed                                   -- an error after the up-front ACL check (bad query, index error …)
+  | early                                    -- `empty_search_response` (no hits, `String::new()` = `build_context(&[])`) returned before the engines run
   | engine (r : Response κ)                  -- Tantivy / lex fallback / filter-only response
 
-/-- `Memvid::search` from the point where the engine response exists -/
+/-- `Memvid::search` -/
 def search {κ : Type} (B : List Hit → κ) (frames : Frames) (mode : Mode) (ctx : Option Ctx)
     (pre : PreSearch κ) : Except Err (Response κ) :=
   match pre with
-  | .failed => .error .other
-  | .early r => .ok r
-  | .engine r =>
-    match applyAcl frames mode ctx r.hits with
+  | .disabled => .error .other
+  | .failed =>
+    match validateRequest mode ctx with
     | .error e => .error e
-    | .ok (hits, _) =>
-      match mode with
-      | .enforce => .ok { hits, totalHits := hits.length, context := B hits }
-      | .audit => .ok { r with hits }
+    | .ok _ => .error .other
+  | .early =>
+    match validateRequest mode ctx with
+    | .error e => .error e
+    | .ok _ => .ok { hits := [], totalHits := 0, context := B [] }
+  | .engine r =>
+    match validateRequest mode ctx with
+    | .error e => .error e
+    | .ok _ =>
+      match applyAcl frames mode ctx r.hits with
+      | .error e => .error e
+      | .ok (hits, _) =>
+        match mode with
+        | .enforce => .ok { hits, totalHits := hits.length, context := B hits }
+        | .audit => .ok { r with hits }
 
-/-- what `vec_search_with_embedding_acl` has before the ACL step -/
+/-- what `vec_search_with_embedding_acl` does around the ACL step -/
 inductive PreVec
-  | failed                                   -- vec disabled, dimension mismatch …
+  | disabled                                 -- `VecNotEnabled`, raised before the request is looked at
+  | failed                                   -- dimension mismatch, index load error … (after the up-front check)
   | noVecHits                                -- `vec_hits.is_empty()`: early empty response
   | converted (hits : List Hit)              -- hits built from the vector index results
 
@@ -424,12 +449,22 @@ inductive PreVec
 def vecSearch {κ : Type} (B : List Hit → κ) (frames : Frames) (mode : Mode) (ctx : Option Ctx)
     (pre : PreVec) : Except Err (Response κ) :=
   match pre with
-  | .failed => .error .other
-  | .noVecHits => .ok { hits := [], totalHits := 0, context := B [] }
-  | .converted hs =>
-    match applyAcl frames mode ctx hs with
+  | .disabled => .error .other
+  | .failed =>
+    match validateRequest mode ctx with
     | .error e => .error e
-    | .ok (hits, _) => .ok { hits, totalHits := hits.length, context := B hits }
+    | .ok _ => .error .other
+  | .noVecHits =>
+    match validateRequest mode ctx with
+    | .error e => .error e
+    | .ok _ => .ok { hits := [], totalHits := 0, context := B [] }
+  | .converted hs =>
+    match validateRequest mode ctx with
+    | .error e => .error e
+    | .ok _ =>
+      match applyAcl frames mode ctx hs with
+      | .error e => .error e
+      | .ok (hits, _) => .ok { hits, totalHits := hits.length, context := B hits }
 
 /-- `Memvid::search_adaptive_acl`: `cut` is `find_adaptive_cutoff` on the hits' scores (any
     function); with `enabled = false`, with no hits and with no scores the vector hits are
